@@ -69,11 +69,13 @@ def k1_verify_flags(idx: List[int], with_constraints: bool) -> bool:
     kind, r = _quiet(pv.pd_verify_params, args)
     if '--bogus' in toks or '-x' in toks:
         return kind == 'exit' and r == 1
+    if ('-f' in toks or '--fields' in toks) and ('-a' in toks or '--all' in toks):
+        return kind == 'exit' and r == 1          # "all fields" with "only failing fields": contradictory
     if kind != 'ok':
         return False
     want = {'report': 'all', 'ascii': False, 'df_path': 'data.csv',
             'constraints_path': 'c.tdda' if with_constraints else None}
-    if ('-f' in toks or '--fields' in toks) and not ('-a' in toks or '--all' in toks):
+    if '-f' in toks or '--fields' in toks:
         want['report'] = 'fields'
     if '-7' in toks or '--ascii' in toks:
         want['ascii'] = True
@@ -87,7 +89,7 @@ def k1_verify_flags(idx: List[int], with_constraints: bool) -> bool:
 
 
 D_FLAGS = ['--write-all', '--per-constraint', '--no-per-constraint', '--no-output-fields', '--output-fields a b',
-           '--output-fields', '--interleave', '--index', '--int', '-7', '--epsilon 0.01', '--nonsense']
+           '--output-fields', '--interleave', '--index', '--int', '-7', '--epsilon 0.01', '--nonsense', '--all', '-f']
 
 
 def k1_detect_flags(idx: List[int], npos: int) -> bool:
@@ -106,6 +108,8 @@ def k1_detect_flags(idx: List[int], npos: int) -> bool:
     if '--nonsense' in toks:
         return kind == 'exit' and r == 1
     if '--per-constraint' in toks and '--no-per-constraint' in toks:
+        return kind == 'exit' and r == 1
+    if '--all' in toks and '-f' in toks:
         return kind == 'exit' and r == 1
     last_of = None
     for t in toks:
@@ -140,16 +144,17 @@ def k1_detect_flags(idx: List[int], npos: int) -> bool:
 
 def k1_discover_flags(rex: int, ascii_: bool, bogus: bool, out: int) -> bool:
     """
-    pre: 0 <= rex < 4 and 0 <= out < 3
+    pre: 0 <= rex < 7 and 0 <= out < 3
     post: __return__
     """
-    rex, out = _c(rex, 4), _c(out, 3)
-    args = [[], ['-r'], ['--rex'], ['-R']][rex] + (['-7'] if ascii_ else []) + (['--what'] if bogus else [])
+    rex, out = _c(rex, 7), _c(out, 3)
+    args = ([[], ['-r'], ['--rex'], ['-R'], ['-r', '-R'], ['--norex', '--rex'], ['-rR']][rex]
+            + (['-7'] if ascii_ else []) + (['--what'] if bogus else []))
     args.append('data.parquet')
     if out:
         args.append(['x.tdda', '-'][out - 1])
     kind, r = _quiet(pdis.pd_discover_params, args)
-    if bogus:
+    if bogus or rex >= 4:                         # with and without regular expressions: contradictory
         return kind == 'exit' and r == 1
     return kind == 'ok' and r == {'inc_rex': rex in (1, 2), 'df_path': 'data.parquet',
                                   'constraints_path': [None, 'x.tdda', '-'][out]}
@@ -325,17 +330,19 @@ def _obs():
     obs = []
     for n, tier, to in ((2, 'quick', 300), (3, 'thorough', 2400)):
         obs.append(Ob('K1', 'k1_verify_flags', 'tdda verify: argv -> keyword arguments equal the documented meaning '
-                      '(report all/fields, ascii, type_checking, epsilon, positional paths); an unknown flag exits 1',
+                      '(report all/fields, ascii, type_checking, epsilon, positional paths); an unknown flag, or --all '
+                      'with --fields, exits 1',
                       'any sequence of <=%d flags from a menu of %d (incl. 2 unknown) + 1..2 positionals, through the '
                       'real argparse parser' % (n, len(V_FLAGS)), param={'n': n}, timeout=to, tier=tier))
         for npos in (1, 2, 3):
             obs.append(Ob('K1', 'k1_detect_flags', 'tdda detect: argv -> keyword arguments equal the documented '
-                          'meaning; --per-constraint with --no-per-constraint, or --output-fields F with '
-                          '--no-output-fields, or an unknown flag, exit 1',
+                          'meaning; --per-constraint with --no-per-constraint, --output-fields F with '
+                          '--no-output-fields, --all with --fields, or an unknown flag, exit 1',
                           'any sequence of <=%d flags from a menu of %d + %d positional(s)' % (n, len(D_FLAGS), npos),
                           param={'n': n, 'npos': npos}, timeout=to, tier=tier))
-    obs.append(Ob('K1', 'k1_discover_flags', 'tdda discover: inc_rex iff -r/--rex; paths as given; unknown flag exits '
-                  '1', '4 rex spellings x ascii x unknown flag x 3 output forms', timeout=120))
+    obs.append(Ob('K1', 'k1_discover_flags', 'tdda discover: inc_rex iff -r/--rex; paths as given; unknown flag, or '
+                  '--rex with --norex, exits 1', '7 rex spellings (incl. 3 contradictory) x ascii x unknown flag x 3 '
+                  'output forms', timeout=120))
     for cmd, name in enumerate(['discover', 'verify', 'detect']):
         obs.append(Ob('K2', 'k2_dispatch', '%s reaches the pandas front end, once, with the arguments unchanged, iff '
                       'some argument is "-" or has a known extension; otherwise nothing is run' % name,
